@@ -2,5 +2,5 @@
 # Build the framework offline from files on disk: regenerate the extracted Lean from /repo, build library + driver.
 set -e
 cd "$(dirname "$0")"
-python3 tools/extract.py --repo "${VERIF_REPO:-/repo}" || true
+/venv/bin/python tools/extract.py --repo "${VERIF_REPO:-/repo}" || true
 cd lean && lake build HC hcdriver
